@@ -847,4 +847,123 @@ theorem calcCumAbs_smul_general (c : ℚ) (values : List ℚ) (dt : ℚ) (tts : 
         simp only [Function.comp, cumAbsRow_smul, habs]
       rw [this]; rfl
 
+
+/-! ### `trim=True, start=True`: a trimmed row only reads the common prefix (C19.d) -/
+
+theorem pyIdx_natCast (len k : ℕ) : pyIdx len (k : ℤ) = min k len := by
+  unfold pyIdx
+  rw [if_neg (by omega)]; simp
+
+theorem pySlice_take_some {α : Type} (l : List α) (L a b : ℕ) (hb : b ≤ L) (hL : L ≤ l.length) :
+    pySlice (l.take L) (some (a : ℤ)) (some (b : ℤ)) = pySlice l (some (a : ℤ)) (some (b : ℤ)) := by
+  unfold pySlice
+  simp only [pyIdx_natCast, List.length_take, List.take_take]
+  have e1 : min b (min L l.length) = b := by omega
+  have e2 : min b l.length = b := by omega
+  have e3 : min a (min L l.length) = min a L := by omega
+  rw [e1, e2, e3]
+  have e4 : min b L = b := by omega
+  rw [e4]
+  -- drop (min a L) vs drop (min a len) of a list of length b ≤ L ≤ len
+  apply List.ext_getElem?
+  intro i
+  simp only [List.getElem?_drop, List.getElem?_take]
+  by_cases h1 : a ≤ L
+  · have : min a L = a := by omega
+    have : min a l.length = a := by omega
+    simp [*]
+  · have h1' : min a L = L := by omega
+    rw [h1']
+    have c1 : ¬ (L + i < b) := by omega
+    have c2 : ¬ (min a l.length + i < b) := by omega
+    simp [c1, c2]
+
+theorem pySlice_take_none {α : Type} (l : List α) (L b : ℕ) (hb : b ≤ L) (hL : L ≤ l.length) :
+    pySlice (l.take L) none (some (b : ℤ)) = pySlice l none (some (b : ℤ)) := by
+  unfold pySlice
+  simp only [pyIdx_natCast, List.length_take, List.take_take, List.drop_zero]
+  have e1 : min b (min L l.length) = b := by omega
+  have e2 : min b l.length = b := by omega
+  rw [e1, e2]
+  have e4 : min b L = b := by omega
+  rw [e4]
+
+theorem trimRow_take (row : List ℚ) (n msi : ℕ) (sis : ℤ) (hw : n + msi ≤ row.length)
+    (h1 : sis ≤ (n : ℤ)) (h2 : -sis ≤ (msi : ℤ)) :
+    trimRow (row.take (n + msi)) n sis = trimRow row n sis := by
+  unfold trimRow
+  split
+  · rename_i hneg
+    obtain ⟨a, ha⟩ : ∃ a : ℕ, (a : ℤ) = -sis := ⟨(-sis).toNat, by omega⟩
+    obtain ⟨b, hb⟩ : ∃ b : ℕ, (b : ℤ) = (n : ℤ) - sis := ⟨((n : ℤ) - sis).toNat, by omega⟩
+    rw [← ha, ← hb, pySlice_take_some row (n + msi) a b (by omega) hw]
+  · rename_i hpos
+    obtain ⟨b, hb⟩ : ∃ b : ℕ, (b : ℤ) = (n : ℤ) - sis := ⟨((n : ℤ) - sis).toNat, by omega⟩
+    rw [← hb, pySlice_take_none row (n + msi) b (by omega) hw]
+
+theorem forall₂_range_get {β : Type} {R : ℕ → β → Prop} (m : ℕ) (out : List β)
+    (h : List.Forall₂ R (List.range m) out) :
+    ∃ hl : out.length = m, ∀ i (hi : i < m), R i (out[i]'(by omega)) := by
+  have hl : out.length = m := by simpa using h.length_eq.symm
+  refine ⟨hl, fun i hi => ?_⟩
+  have := (List.forall₂_iff_get.mp h).2 i (by simpa using hi) (by omega)
+  simpa using this
+
+theorem squeeze_rowsList (m : ℕ) (rows : List (List ℚ)) (out : Out) (hl : rows.length = m) (hm : 0 < m)
+    (h : squeeze m rows = .ok out) : out.rowsList = rows := by
+  unfold squeeze at h
+  split at h
+  · rename_i h1
+    match rows, hl with
+    | [r], _ =>
+      have : out = .row r := by
+        have h' : (Except.ok (Out.row r) : Except ErrKind Out) = .ok out := h
+        injection h' with h''; exact h''.symm
+      subst this; rfl
+    | [], hl => simp at hl; omega
+    | _ :: _ :: _, hl => simp at hl; omega
+  · have : out = .rows rows := by
+      have h' : (Except.ok (Out.rows rows) : Except ErrKind Out) = .ok out := h
+      injection h' with h''; exact h''.symm
+    subst this; rfl
+
+/-- rows of a successful `trim_to_length` with `trim=True, start=True` -/
+theorem trimToLength_start_trim_rows (rows : List (List ℚ)) (n : ℕ) (tts : List ℚ) (dt stt : ℚ)
+    (out : List (List ℚ)) (h : trimToLength rows n tts dt true true stt = .ok out) :
+    ∃ hl : out.length = tts.length, ∀ i (hi : i < tts.length),
+      ∃ row, rows[i]? = some row ∧
+        trimRow row n (truncZ (stt / dt) - truncZ (tts.getD i 0 / dt)) = .ok (out[i]'(by omega)) := by
+  unfold trimToLength at h
+  split at h
+  · cases h
+  simp only [Bool.not_true, Bool.and_self, Bool.false_eq_true, if_false, trimWidth, Bool.and_false] at h
+  have hF := mapM_ok_inv _ _ _ h
+  obtain ⟨hl, hget⟩ := forall₂_range_get _ _ hF
+  refine ⟨hl, fun i hi => ?_⟩
+  have := hget i hi
+  have hsis : (trimSis tts dt true stt).getD i 0 = truncZ (stt / dt) - truncZ (tts.getD i 0 / dt) := by
+    simp only [trimSis, if_true, s2dShifts, List.map_map, List.getD_eq_getElem?_getD, List.getElem?_map,
+      List.getElem?_eq_getElem hi, Option.map_some, Option.getD_some, Function.comp]
+  cases hv : rows[i]? with
+  | none => simp only [hv] at this; cases this
+  | some row =>
+    simp only [hv, hsis] at this
+    exact ⟨row, rfl, this⟩
+
+
+theorem trimToLength_single (r : List ℚ) (n : ℕ) (t dt stt : ℚ) (hdt : dt ≠ 0) :
+    trimToLength [r] n [t] dt true true stt
+      = (trimRow r n (truncZ (stt / dt) - truncZ (t / dt))).map (fun x => [x]) := by
+  unfold trimToLength
+  simp only [hdt, if_false, Bool.not_true, Bool.and_self, Bool.false_eq_true, trimWidth, Bool.and_false,
+    List.length_singleton]
+  have hr : List.range 1 = [0] := rfl
+  rw [hr, List.mapM_cons]
+  have hsis : (trimSis [t] dt true stt).getD 0 0 = truncZ (stt / dt) - truncZ (t / dt) := by
+    simp [trimSis, s2dShifts]
+  simp only [List.getElem?_cons_zero, hsis]
+  cases trimRow r n (truncZ (stt / dt) - truncZ (t / dt)) with
+  | error e => rfl
+  | ok x => rfl
+
 end EqsigVerif.Model.Surface
